@@ -328,13 +328,26 @@ Qed.
 (* ------------------------------------------------------------------------------------------------
    stability: decoding the re-encoding of a decoded tree
    ------------------------------------------------------------------------------------------------ *)
-(* the round-trip statement of C03 for the top-level decoder (a parameter tuple) *)
+(* every sequence inside a value is shorter than 2^32 (array counts travel in words the decoder
+   refuses above 32 bits) *)
+Fixpoint list_counts_ok (v : val) : bool :=
+  match v with
+  | VList l => (Z.of_nat (length l) <? 2 ^ 32) && forallb list_counts_ok l
+  | _ => true
+  end.
+
+(* the round-trip statement of C03 for the top-level decoder (a parameter tuple), in the form
+   b-c03 is proving it (Abi/DecProofs3.v DecodeABIData_enc): the specification encoding of a well
+   typed value, embedded anywhere, decodes to the canonical tree of that value; the two size guards
+   are forced by decodeABILength's 32-bit cap *)
 Definition decode_inverts_enc : Prop :=
-  forall (l : list tcomp) (k : bytes) (v : val),
-    let c := TCTuple l k in
-    tc_wf c = true -> tc_no_fixed_point c = true -> tc_no_zero_len c = true ->
+  forall (children : list tcomp) (k : bytes) (v : val) (pre post : bytes),
+    let c := TCTuple children k in
+    tc_consistent c = true -> wf_ty (ty_of c) = true ->
+    tc_no_fixed_point c = true -> tc_no_zero_len c = true ->
     well_typed (ty_of c) v = true ->
-    DecodeABIData c (enc (ty_of c) v) 0 = Ok (cv_of c v).
+    zlen (enc (ty_of c) v) < 2 ^ 32 -> list_counts_ok v = true ->
+    DecodeABIData c (pre ++ enc (ty_of c) v ++ post) (zlen pre) = Ok (cv_of c v).
 
 Theorem stable_given_roundtrip :
   decode_inverts_enc ->
@@ -342,15 +355,18 @@ Theorem stable_given_roundtrip :
     tc_wf c = true -> tc_no_fixed_point c = true -> tc_no_zero_len c = true ->
     DecodeABIData c bs off = Ok x -> EncodeABIData x = Ok e ->
     bools_ok x = true -> weight_ok (val_of x) ->
+    zlen e < 2 ^ 32 -> list_counts_ok (val_of x) = true ->
     DecodeABIData c e 0 = Ok x.
 Proof.
-  intros RT c bs off x e Hw Hnf Hnz Hd He Hb Hwt.
+  intros RT c bs off x e Hw Hnf Hnz Hd He Hb Hwt Hlen Hcnt.
   destruct (DecodeABIData_facts c bs off x Hw Hnf Hd) as (Hta & Hvo & Hcv & Hwty).
   unfold EncodeABIData in He. destruct (encodeABIData x) as [[e' d]| |] eqn:Ee; cbn [bind] in He; try discriminate.
-  injection He as <-. cbn [fst].
+  injection He as <-. cbn [fst] in *.
   assert (Hwell : well_typed (ty_of c) (val_of x) = true) by (apply Hwty; [eexists; eauto|exact Hb]).
   pose proof (encode_is_spec x c Hw Hnf Hnz Hta Hvo Hwell Hwt) as Hspec.
   rewrite Hspec in Ee. injection Ee as <- _.
   destruct c as [| | |l k]; try discriminate.
-  rewrite (RT l k (val_of x) Hw Hnf Hnz Hwell). rewrite Hcv. reflexivity.
+  pose proof Hw as Hw'. unfold tc_wf in Hw'. apply andb_true_iff in Hw' as [Hc Hty].
+  pose proof (RT l k (val_of x) [] [] Hc Hty Hnf Hnz Hwell Hlen Hcnt) as R.
+  cbn [app] in R. rewrite app_nil_r in R. change (zlen []) with 0 in R. rewrite R, Hcv. reflexivity.
 Qed.
